@@ -11,11 +11,11 @@ ASSUMPTIONS = [
     "trusted: clang 14 + ASan/UBSan, rapidcheck, OpenSSL EVP_EncodeBlock (second opinion for base-64), glibc struct sockaddr_* layouts",
 ]
 SUBS = [
-    dict(name="b64", quick=dict(cases=130000, shards=3), thorough=dict(cases=1300000, shards=3)),
-    dict(name="hex", quick=dict(cases=130000, shards=2), thorough=dict(cases=1300000, shards=2)),
-    dict(name="endian", quick=dict(cases=200000, shards=1), thorough=dict(cases=2000000, shards=1)),
-    dict(name="addr", quick=dict(cases=60000, shards=3), thorough=dict(cases=600000, shards=3)),
-    dict(name="json", quick=dict(cases=80000, shards=7), thorough=dict(cases=700000, shards=7)),
+    dict(name="b64", quick=dict(cases=200000, shards=3), thorough=dict(cases=1200000, shards=3)),
+    dict(name="hex", quick=dict(cases=160000, shards=2), thorough=dict(cases=1200000, shards=2)),
+    dict(name="endian", quick=dict(cases=400000, shards=1), thorough=dict(cases=3000000, shards=1)),
+    dict(name="addr", quick=dict(cases=100000, shards=3), thorough=dict(cases=800000, shards=3)),
+    dict(name="json", quick=dict(cases=100000, shards=7), thorough=dict(cases=800000, shards=7)),
 ]
 
 
